@@ -103,6 +103,8 @@ def rfc_answer(kind, st):
     """the set of NOTIFICATION (code, subcode) the RFCs allow as the answer to `kind` consumed in state st
     when the session is ended because of it; subcode None = any.  Written from RFC 4271 s6 / 6608 / 7313,
     not from the implementation."""
+    if kind.startswith('Notification'):
+        return set()  # a received NOTIFICATION is never answered
     # s6.1: the header is checked first, in every state
     if kind == 'HeaderBadMarker':
         return {(1, 1)}
@@ -731,8 +733,7 @@ def campaign(run: Run, tier, seed, which):
             continue
         for sig, what in oracle(r['log'], r, which):
             failing.setdefault(sig, (i, what))
-    c05_clauses = set(CLAUSES[:5])
-    mine = c05_clauses if 'C05' in which and 'C10' not in which else (set(CLAUSES[5:]) if which == ('C10',) else set(CLAUSES))
+    mine = set(CLAUSES[:5]) if tuple(which) == ('C05',) else (set(CLAUSES[5:]) if tuple(which) == ('C10',) else set(CLAUSES))
     disagree = []
     for i, failed in spec_bad.items():
         f = [x for x in failed if x in mine]
@@ -740,11 +741,12 @@ def campaign(run: Run, tier, seed, which):
             disagree.append((i, f))
     run.obligation('the Spec_Fsm checkers (Coq) flag no observed trace that the python oracle accepts', not disagree,
                    '; '.join(f"{cases[i]['name']} {cases[i]['steps']}: {f}" for i, f in disagree[:3]))
-    for sig, (i, what) in sorted(failing.items()):
+    for n_sig, (sig, (i, what)) in enumerate(sorted(failing.items())):
         def fails(cand, sig=sig):
             r = _worker(cand)
             return 'error' not in r and any(s == sig for s, _ in oracle(r['log'], r, which))
-        small = shrink(cases[i], fails) if len(cases[i]['steps']) <= 14 else cases[i]
+        # shrinking re-runs the rig: the first few signatures are shrunk, the others are reported as found
+        small = shrink(cases[i], fails) if (len(cases[i]['steps']) <= 14 and n_sig < 6) else cases[i]
         r = _worker(small)
         run.fail_case(sig, what, {'script': small['steps'], 'trace': r.get('log', [])[:80], 'origin': cases[i]['name']})
     run.obligation('property oracle on the real Peer: every clause holds on every observed trace', not failing,
@@ -788,9 +790,27 @@ ASSUMPTIONS = [
 ]
 
 
+def table_check(run):
+    """the generated table against the imported FSM class, all 36 pairs (the translator is trusted glue: cross-checked)"""
+    from exabgp.bgp.fsm import FSM
+
+    body = 'Eval vm_compute in map (fun a => map (fun b => allowed a b) states) states.\nEval vm_compute in states.'
+    rc, out = common.coq_eval_file('From Coq Require Import ZArith Bool List.\nFrom ExaV Require Import gen.Gen_Fsm.\nImport ListNotations. Open Scope Z_scope.', body, 't2_table')
+    ok, detail = False, out[-500:]
+    if rc == 0:
+        res = common.parse_eval(out)
+        rows = [re.findall(r'true|false', r) for r in re.findall(r'\[([^\[\]]*)\]', res[0].strip()[1:-1])]
+        states = [int(x) for x in re.findall(r'\d+', res[1])]
+        want = [[('true' if FSM.STATE(a) in FSM.transition[FSM.STATE(b)] else 'false') for b in states] for a in states]
+        ok = rows == want and sorted(states) == sorted(int(x) for x in FSM.STATE)
+        detail = f'coq {rows} python {want}'
+    run.obligation('Gen_Fsm.allowed equals FSM.transition (imported class) on all 36 state pairs', ok, detail)
+
+
 def check(tier, seed):
     run = Run('C05', tier, seed)
     common.standard_build(run, ['T2'])
+    table_check(run)
     campaign(run, tier, seed, ('C05',))
     run.trusted = TRUSTED
     run.assumptions = ASSUMPTIONS
